@@ -422,3 +422,44 @@ pub fn regress_cases() -> Vec<(&'static str, &'static str, Value)> {
         ("enum-neq-unknown-variant", "layouts", serde_json::to_value(simple_case(vec![("e", FT::Enum(vec!["v0".into(), "v1".into()]))], vec![vec![json!("v0")], vec![json!("v1")], vec![json!("v0")]], vec![], cmp("e", Cmp::Neq, Lit::Str("V0".into())))).unwrap()),
     ]
 }
+
+
+/// Open finding classes of C02 over WHERE expressions, for other properties that embed a WHERE.
+#[derive(Clone, Copy)]
+pub struct WhereExcl {
+    pub float: bool,
+    pub int_on_float: bool,
+    pub neg_u64: bool,
+    pub bool_col: bool,
+    pub numstr: bool,
+    pub opt: bool,
+}
+
+impl WhereExcl {
+    pub fn from_ctx_any(ctx: &Ctx) -> WhereExcl {
+        WhereExcl {
+            float: ctx.open_any("where.float_literal"),
+            int_on_float: ctx.open_any("where.int_lit_on_float_col"),
+            neg_u64: ctx.open_any("where.neg_lit_on_u64_col"),
+            bool_col: ctx.open_any("where.bool_col"),
+            numstr: ctx.open_any("where.numeric_looking_string_literal"),
+            opt: ctx.open_any("where.optional_field"),
+        }
+    }
+    pub fn excluded(&self, td: &TypeDef, w: &WExpr) -> bool {
+        let fty = |f: &str| td.field(f).map(|x| x.ty.clone());
+        (self.float && w.any_lit(&|_, l| matches!(l, Lit::Float(_))))
+            || (self.int_on_float && w.any_lit(&|f, l| matches!(l, Lit::Int(_)) && fty(f) == Some(FT::Float)))
+            || (self.neg_u64 && w.any_lit(&|f, l| matches!(l, Lit::Int(i) if *i < 0) && fty(f) == Some(FT::U64)))
+            || (self.bool_col && w.any_lit(&|f, _| fty(f) == Some(FT::Bool)))
+            || (self.opt && w.any_lit(&|f, _| td.field(f).map(|x| x.opt).unwrap_or(false)))
+            || (self.numstr
+                && w.any_lit(&|f, l| {
+                    matches!(fty(f), Some(FT::Str) | Some(FT::Enum(_)))
+                        && match l {
+                            Lit::Str(s) | Lit::Word(s) => s.trim().parse::<i128>().is_ok() || norm_time(&json!(s)).is_some(),
+                            _ => true,
+                        }
+                }))
+    }
+}
